@@ -11,18 +11,21 @@
 (* extension; layers of contexts with exclusivity; calls with or without   *)
 (* receiver, positional arguments, skipped slots and keyword arguments.    *)
 (* no_kwargs functions (an `a => b` argument reaches them as a positional   *)
-(* mapping value).  Not in the fragment: **kwargs, keyword-only, lazy and   *)
-(* constant-only parameters.                                               *)
+(* mapping value).  Lazy parameters (type "Lazy": the argument is handed    *)
+(* over unevaluated, any argument fits): all overloads that survive the    *)
+(* arity filter must agree on which arguments are lazy, otherwise the call *)
+(* is ambiguous before anything is evaluated.  Not in the fragment:        *)
+(* **kwargs, keyword-only and constant-only parameters.                    *)
 (***************************************************************************)
 EXTENDS Naturals, Sequences, FiniteSets, TLC
 
 (* ---- types and values ------------------------------------------------ *)
 \* Any > A > {B, C} > D ;  Int unrelated ;  Null is accepted only by a nullable (Any) parameter
 Classes == {"A", "B", "C", "D", "Int"}
-Types   == Classes \cup {"Any"}
+Types   == Classes \cup {"Any", "Lazy"}
 
 Parents(c) == CASE c = "A" -> {"Any"} [] c = "B" -> {"A"} [] c = "C" -> {"A"} [] c = "D" -> {"B", "C"}
-                [] c = "Int" -> {"Any"} [] c = "Any" -> {}
+                [] c = "Int" -> {"Any"} [] c = "Any" -> {} [] c = "Lazy" -> {}        \* a lazy type is comparable with nothing
 RECURSIVE Ancestors(_)
 Ancestors(c) == Parents(c) \cup UNION {Ancestors(p) : p \in Parents(c)}
 SubEq(c, t)     == c = t \/ t \in Ancestors(c)        \* issubclass
@@ -30,7 +33,7 @@ StrictSub(c, t) == c # t /\ t \in Ancestors(c)        \* PythonType.is_specializ
 
 \* does a parameter of type t accept the (evaluated) value v?  v is a class name, "Null", or "Rule" - the mapping object
 \* that an `a => b` argument becomes for a function that takes no keyword arguments
-Accepts(t, v) == IF v \in {"Null", "Rule"} THEN t = "Any" ELSE SubEq(v, t)
+Accepts(t, v) == IF t = "Lazy" THEN TRUE ELSE IF v \in {"Null", "Rule"} THEN t = "Any" ELSE SubEq(v, t)
 
 (* ---- overloads ------------------------------------------------------- *)
 \* parameter: [name, ty, def]   ty = "hidden" for an injected parameter (context/engine)
@@ -56,7 +59,7 @@ KwVal(call, n) == call.kw[KwValue(call, n)][2]
 (*    vals|-> sequence of <<type, value>> pairs to type-check, where value *)
 (*            "default" stands for an omitted/skipped defaulted parameter] *)
 (***************************************************************************)
-NoBinding == [ok |-> FALSE, pos |-> <<>>, kw |-> {}, vals |-> <<>>]
+NoBinding == [ok |-> FALSE, pos |-> <<>>, kw |-> {}, vals |-> <<>>, lazy |-> {}]
 MapArgs(o, call0) ==
     LET call == CallFor(o, call0)
         args == FullArgs(call)
@@ -75,6 +78,9 @@ MapArgs(o, call0) ==
     IN IF bad THEN NoBinding
        ELSE [ok |-> TRUE, pos  |-> [i \in 1..Len(args) |-> IF i <= n THEN vis[i].ty ELSE o.star],
              kw   |-> {<<vis[i].name, vis[i].ty>> : i \in {j \in 1..n : how(j) = "kw"}},
+             \* which arguments stay unevaluated: positions (given or skipped) and keywords bound to a lazy parameter
+             lazy |-> {<<"p", i>> : i \in {j \in 1..n : j <= Len(args) /\ vis[j].ty = "Lazy"}}
+                        \cup {<<"k", vis[i].name>> : i \in {j \in 1..n : how(j) = "kw" /\ vis[j].ty = "Lazy"}},
              vals |-> [i \in 1..Len(args) |->
                           IF i <= n THEN <<vis[i].ty, IF given(i) THEN args[i] ELSE "default">>
                           ELSE <<o.star, args[i]>>]
@@ -127,7 +133,9 @@ FirstMatchingLayer(cands, call) ==
 
 MixedFlags(layers, call) ==
     LET gathered == Gather(layers, call)
-    IN Cardinality(UNION {{o.nokw : o \in gathered[i]} : i \in 1..Len(gathered)}) > 1
+        early(o) == MapArgs(o, call).ok /\ (call.recv = "none" \/ Accepts(MapArgs(o, call).vals[1][1], MapArgs(o, call).vals[1][2]))
+    IN \/ Cardinality(UNION {{o.nokw : o \in gathered[i]} : i \in 1..Len(gathered)}) > 1
+       \/ Cardinality({MapArgs(o, call).lazy : o \in {x \in UNION {gathered[i] : i \in 1..Len(gathered)} : early(x)}}) > 1
 
 Resolve(layers, call) ==
     LET gathered == Gather(layers, call)
@@ -140,6 +148,8 @@ Resolve(layers, call) ==
     IN IF gathered = <<>> THEN Out("Unknown", "", FALSE)
        ELSE IF Cardinality(flags) > 1 THEN Out("Ambiguous", "", FALSE)      \* overloads that disagree about keyword arguments
        ELSE IF nonempty = <<>> THEN Out("NoMatch", "", FALSE)
+       \* the surviving overloads (of all layers) disagree about which arguments are lazy: nothing can be evaluated
+       ELSE IF Cardinality({MapArgs(o, call).lazy : o \in UNION {mapped[i] : i \in 1..Len(mapped)}}) > 1 THEN Out("Ambiguous", "", FALSE)
        ELSE FirstMatchingLayer(nonempty, call)
 
 (***************************************************************************)
